@@ -34,7 +34,7 @@ func init() {
 				"cfg.bbox_disjoint_both_axes": 100, "cfg.bbox_disjoint_one_axis": 100, "points.judged": 100000, "area.identities_checked": 1000, "area.method_compared": 1000, "result.empty_correct": 500}
 			for _, a := range []string{"Polygon", "MultiPolygon", "*Bounds"} {
 				for _, b := range []string{"Polygon", "MultiPolygon", "*Bounds"} {
-					m["pair."+a+"x"+b] = 100
+					m["pair."+a+"x"+b] = 40
 				}
 			}
 			return m
